@@ -368,6 +368,18 @@ def check(ctx):
     cc = [c for c in calls(cg, "convert_legacy_graph")]
     ok = len(cc) == 1 and unparse(kwarg(cc[0], "all_keys")) == "set(dsk) | set(cache)"
     ctx.ob("DELEG.core-get.cache-keys", cg, "core.get converts with all_keys = keys of the graph and of the supplied cache", ok, "" if ok else "keys that only exist in the cache argument are not recognised as keys: references to them are passed as literals")
+    # ---------------- container nodes rebuild the container type they stand for
+    ts8 = ctx.model.module("dask/_task_spec.py")
+    for cname, typ in (("List", "list"), ("Tuple", "tuple"), ("Set", "set")):
+        c_ = ts8.cls(cname)
+        vals = {}
+        for st in c_.body:
+            if isinstance(st, ast.Assign):
+                for tg in st.targets:
+                    if isinstance(tg, ast.Name) and tg.id in ("constructor", "klass"):
+                        vals[tg.id] = unparse(st.value)
+        ok = vals.get("constructor") == typ and vals.get("klass") == typ
+        ctx.ob("TAB.containers.constructor", c_, f"{cname}: constructor = klass = {typ}", ok, "" if ok else f"{cname} nodes evaluate to {vals.get('constructor')}: equal under == for some types (frozenset == set) but a different type for the consumer")
 
 
 VARIANTS = [
